@@ -829,12 +829,19 @@ fn remap_delta_set_indices(
             continue;
         };
 
-        let Some((new_var_idx, delta)) = varidx_delta_map.get(var_idx) else {
-            continue;
+        // a 0xFFFF/0xFFFF DeltaSetIndexMap entry means "no variation": keep its
+        // slot so that var_index_base + i stays contiguous
+        let (new_var_idx, delta) = if *var_idx == 0xFFFF_FFFF {
+            (0xFFFF_FFFF_u32, 0)
+        } else {
+            let Some((new_var_idx, delta)) = varidx_delta_map.get(var_idx) else {
+                continue;
+            };
+            (*new_var_idx, *delta)
         };
 
-        new_deltaset_idx_varidx_map.insert(new_idx, *new_var_idx);
-        deltaset_idx_delta_map.insert(deltaset_idx, (new_idx, *delta));
+        new_deltaset_idx_varidx_map.insert(new_idx, new_var_idx);
+        deltaset_idx_delta_map.insert(deltaset_idx, (new_idx, delta));
         new_idx += 1;
     }
     (new_deltaset_idx_varidx_map, deltaset_idx_delta_map)
